@@ -188,10 +188,10 @@ def r2(ctx):
     ctx.check(ok, "file_source:c_file_source:passes-directives_only", "directives_only must reach the cleaner", c.loc())
     ex = Extracted(repo, "c_cleaner")
     for ch in C_ALPHABET:
-        for cat in ("BLANK", "SRC"):
+        for cat in ("EMPTY", "BLANK", "SRC"):
             st2, cat2, out, events, _vc, _dc = ex.step(("TOPLEVEL",), cat, ch, True)
             key = f"file_source:c_cleaner:directives_only:TOPLEVEL:{ch!r}:{cat}"
-            if ch == "#" and cat == "BLANK":
+            if ch == "#" and cat in ("EMPTY", "BLANK"):
                 ok = st2 == ("TOPLEVEL", "CPP_DIRECTIVE") and events == (("ns", "#"),)
             elif ch == "\\":
                 ok = st2 == ("TOPLEVEL", "ESCAPING") and events == (("ns", "\\"),)
